@@ -10,13 +10,13 @@ VERIF = os.path.dirname(os.path.dirname(os.path.abspath(__file__)))
 PROPS = ["C08", "C14", "C15", "C17", "C18", "C19"]
 
 
-def digests(prop, n, hashseed, jobs, seed):
+def digests(prop, idx, hashseed, jobs, seed):
     env = dict(os.environ)
     env["PYTHONHASHSEED"] = str(hashseed)
     env["DST_NO_REEXEC"] = "1"
     env["PYTHONDONTWRITEBYTECODE"] = "1"
     cmd = [sys.executable, "-m", "dst", prop, "--seed", str(seed), "--jobs", str(jobs), "--digests",
-           ",".join(str(i) for i in range(n))]
+           ",".join(str(i) for i in idx)]
     return subprocess.Popen(cmd, cwd=VERIF, env=env, stdout=subprocess.PIPE, stderr=subprocess.PIPE)
 
 
@@ -28,7 +28,10 @@ def determinism(a):
         t0 = time.time()
         nn = n if prop not in ("C08", "C17") else max(8, n // 4)
         configs = [(0, 16), (7, 16), (0, 1 if nn <= 16 else 4), (7, 3)]
-        procs = [digests(prop, nn, hs, j, a.seed) for hs, j in configs]
+        idx = list(range(nn))
+        if prop == "C17":
+            idx += list(range(256, 256 + max(16, nn // 2)))     # the opcode-level runs (worlds/c17.py: opcode_run)
+        procs = [digests(prop, idx, hs, j, a.seed) for hs, j in configs]
         outs = []
         for p in procs:
             o, e = p.communicate()
@@ -37,12 +40,12 @@ def determinism(a):
             except Exception:
                 outs.append({"error": e.decode()[-500:]})
         mism = 0
-        for i in range(nn):
+        for i in idx:
             vals = {o.get(str(i)) for o in outs}
             if len(vals) != 1 or None in vals:
                 mism += 1
-        report[prop] = {"seeds": nn, "configs": configs, "mismatching_seeds": mism, "wall_s": round(time.time() - t0, 1)}
-        print(f"{prop}: {nn} seeds x {len(configs)} fresh interpreters (hashseed, lanes)={configs}: mismatches={mism}", flush=True)
+        report[prop] = {"seeds": len(idx), "configs": configs, "mismatching_seeds": mism, "wall_s": round(time.time() - t0, 1)}
+        print(f"{prop}: {len(idx)} seeds x {len(configs)} fresh interpreters (hashseed, lanes)={configs}: mismatches={mism}", flush=True)
         bad += mism
     with open(os.path.join(VERIF, "evidence", "determinism_selftest.json"), "w") as f:
         json.dump(report, f, indent=1)
